@@ -18,6 +18,20 @@ def Jac.WF (q : Jac) : Prop :=
   q.1 < P ∧ q.2.1 < P ∧ q.2.2 < P ∧
   (isInfJ q = true ∨ fsq q.2.1 = fadd (fmul (fsq q.1) q.1) (fmul 7 (fmul (fsq (fmul (fsq q.2.2) q.2.2)) 1)))
 
+/-- what C04 establishes about the regenerated point routines, as used by the scalar-multiplication
+    loops: addition into the first operand (`AddNonConst(&q, p, &q)`), in-place doubling, addition with a
+    distinct result, ToAffine, and the DecompressY program -/
+structure PointOps : Prop where
+  add : ∀ q p, Jac.WF q → Jac.WF p → Jac.WF (addNC q p) ∧ Jac.toPt (addNC q p) = Pt.add (Jac.toPt q) (Jac.toPt p)
+  dbl : ∀ q, Jac.WF q → Jac.WF (dblNC q) ∧ Jac.toPt (dblNC q) = Pt.dbl (Jac.toPt q)
+  add3 : ∀ a b, Jac.WF a → Jac.WF b →
+    Jac.WF (addNC3 a b) ∧ Jac.toPt (addNC3 a b) = Pt.add (Jac.toPt a) (Jac.toPt b)
+  toAffine : ∀ q x y, Jac.WF q → Jac.toPt q = some (x, y) → toAffineJ q = (x, y, 1)
+  decompress : ∀ x odd, x < P → decompressYJ x odd = decompressY x odd
+
+/-- every affine point of the curve is a multiple of G (the group is cyclic of prime order N, cofactor 1) -/
+def Cyclic : Prop := ∀ x y, OnCurve x y → ∃ m, smul m G = some (x, y)
+
 structure PointSpec : Prop where
   /-- base-point multiplication (C03) -/
   sbmul : ∀ k, k < N → Jac.WF (scalarBaseMultNC k) ∧ Jac.toPt (scalarBaseMultNC k) = smul k G
